@@ -361,7 +361,7 @@ func TestC03KEM(t *testing.T) {
 	for _, im := range impls() {
 		im := im
 		t.Run(im.name, func(t *testing.T) {
-			vlib.Check(t, vlib.N(100, 300), func(t *rapid.T) { kemCase(t, im) })
+			vlib.Check(t, vlib.N(80, 300), func(t *rapid.T) { kemCase(t, im) })
 		})
 	}
 }
@@ -393,7 +393,7 @@ func kemCase(t *rapid.T, im impl) {
 		return
 	}
 	if !bytes.Equal(ek, wantEk) || !bytes.Equal(ek2, wantEk) {
-		vlib.Report(t, "C03/keygen/"+im.name+"/ek", fmt.Sprintf("seed %x: ek differs from the reference\n circl %s\n ref   %s", seed, vlib.Hex(ek), vlib.Hex(wantEk)))
+		vlib.Report(t, "C03/keygen/"+im.name+"/ek", fmt.Sprintf("seed %x: ek differs from the reference (first differing byte %d of the scheme-API key, %d of the typed-API key)\n circl %s\n ref   %s", seed, firstDiff(ek, wantEk), firstDiff(ek2, wantEk), vlib.Hex(ek), vlib.Hex(wantEk)))
 		return
 	}
 	if !bytes.Equal(dk, wantDk) || !bytes.Equal(dk2, wantDk) {
@@ -506,7 +506,7 @@ func TestC03PKE(t *testing.T) {
 	for _, im := range pkeImpls() {
 		im := im
 		t.Run(im.name, func(t *testing.T) {
-			vlib.Check(t, vlib.N(100, 300), func(t *rapid.T) { pkeCase(t, im) })
+			vlib.Check(t, vlib.N(80, 300), func(t *rapid.T) { pkeCase(t, im) })
 		})
 	}
 }
@@ -691,7 +691,7 @@ func TestC03Parse(t *testing.T) {
 	for _, im := range impls() {
 		im := im
 		t.Run(im.name, func(t *testing.T) {
-			vlib.Check(t, vlib.N(140, 500), func(t *rapid.T) { parseCase(t, im) })
+			vlib.Check(t, vlib.N(120, 500), func(t *rapid.T) { parseCase(t, im) })
 		})
 	}
 }
